@@ -22,6 +22,12 @@ TEXT = {
          "one-entity batches on acyclic results plus soundness of rejection; cyclic_tc's SCC internals are modelled by contract; completeness of cycle "
          "detection, multi-entity upsert batches and the compute_tc contract are stated in full (defs ...Full / named residual hypotheses of "
          "history_inv_partial) but only checked by the correspondence; correspondence is sampled + exhaustive on <=3 uids"),
+ "C05": ("Lean theorems over a token-level model of the printer (mirror of est/expr.rs Display / maybe_with_parens) and of the parser (recursive descent for "
+         "grammar.lalrpop composed with the cst_to_ast lowerings): unescape(escape s) = s for strings and patterns for every choice of escape_debug's tables; "
+         "Parse(Print e) = e on a stated fragment (parse_print_partial, full statement kept as a def). Tied to the code by cross-composition runs "
+         "(model parser on the real printer's output and on arbitrary generated texts incl. rejects, real parser on the model printer's output) and the "
+         "statement itself checked on the implementation for expressions, policies, templates and policy sets with evaluation on random requests.",
+         "proof over a hand-written model; parse_print proved for a fragment only; correspondence sampled + an exhaustive operator-pair grid; the harness tokenizer is trusted"),
  "C07": ("Lean theorems over mirrors of the decimal/ip/datetime/duration parsers and operations (written-out recognisers + checked arithmetic); the model is the "
          "definition of 'exact': any disagreement with the real extension functions on generated strings/values is a failing input.",
          "proof over a hand-written model; std::net / chrono / regex are inside the implementation under check and are re-defined in the model"),
